@@ -5,6 +5,8 @@
  *   C13: the same histories under allocators that make any bypass fatal
  * A history is a byte-coded program: 4 bytes per op {opcode, p1, p2, p3}. */
 #include "vh.h"
+#include "cbor/internal/builder_callbacks.h"
+#include "cbor/internal/stack.h"
 
 static int P;        /* 4, 12, 13 */
 static int ALLOC;    /* 0 track, 1 tagged, 2 arena */
@@ -224,8 +226,9 @@ static int m_apply(struct mstate* m, struct op o, bool allow_oob) {
     case OP_LOAD: {
       if (o.a >= NSLOT || m->slot[o.a] >= 0 || o.b >= NLOADS || m->nn + 8 > MAXN) return -1;
       uint8_t* in; size_t n = vh_unhex(load_inputs[o.b], &in);
-      struct rverdict v = ref_decode(in, n, 2048, RM_LAZY, true, NULL);
+      struct rverdict v = ref_decode(in, n, (size_t)O.L, RM_LAZY, true, NULL);
       free(in);
+      if (v.code == RC_MEMERROR) return 0; /* nests deeper than this library's configured limit: documented refusal */
       if (v.code != RC_ACCEPT) vh_die("hist: built-in load input %d is not well-formed", o.b);
       int r = m_from_ref(m, v.tree);
       rn_free(v.tree);
@@ -391,7 +394,9 @@ static int r_apply(const struct mstate* pre, const struct mstate* post, struct o
       return (w == sz && w2 == sz) ? 1 : 1;
     }
     case OP_DESCRIBE:
-      cbor_describe(rslot[o.a], devnull); /* stdio may allocate for itself: not bracketed as "inside libcbor" */
+      /* --wrap only redirects references made from the linked objects (harness + libcbor), never libc's own internal
+       * allocations for stdio, so cbor_describe can run inside the bypass detector like everything else */
+      LIB(cbor_describe(rslot[o.a], devnull)); LIBEND();
       return 1;
     case OP_REHANDLE: {
       cbor_item_t* it = rslot[o.a];
@@ -861,7 +866,7 @@ static void c13_corpus_case(const uint8_t* in, size_t n) {
     LIB(cbor_serialize_alloc(it, &ab, NULL)); LIBEND();
     if (ab) { LIB(_cbor_free(ab)); LIBEND(); }
     cbor_item_t* cp = LIB(cbor_copy(it)); LIBEND();
-    cbor_describe(it, devnull);
+    LIB(cbor_describe(it, devnull)); LIBEND();
     if (cp) { LIB(cbor_decref(&cp)); LIBEND(); }
     LIB(cbor_decref(&it)); LIBEND();
     VH_COUNT("corpus.trees", 1);
@@ -928,6 +933,119 @@ static void hist_run(void) {
       dfs(&m, prefix, 0, maxlen);
       vh_count_dyn("dfs.histories", g_dfs_histories);
       vh_note("dfs", "every precondition-respecting history of length <= %d over %d slots (new of %zu kinds, load, incref, decref, intermediate_decref, serialize, copy, build_tag, push, push(move), set, replace, map_add, add_chunk, tag_set_item, tag_item, get), each re-executed from scratch and ended by dropping all client references", maxlen, g_dfs_slots, sizeof dfs_kinds);
+    } else if (P == 4 && !strcmp(st, "deepapi")) {
+      /* trees assembled through the construction API may nest deeper than the decoder's limit: releasing the root must
+       * still release everything, and a leaf shared with the client must end with exactly the client's reference */
+      size_t L = (size_t)O.L;
+      size_t depths[] = {L > 1 ? L - 1 : 1, L, L + 1, L + 2, 2 * L + 50, 3 * L};
+      int unit = 0;
+      for (size_t di = 0; di < sizeof depths / sizeof depths[0]; di++)
+        for (int pattern = 0; pattern < 5; pattern++, unit++) {
+          if (unit % O.nshards != O.shard) continue;
+          size_t D = depths[di];
+          if (D > 20000) continue;
+          uint8_t desc[10] = {'D', (uint8_t)pattern};
+          for (int i = 0; i < 8; i++) desc[2 + i] = (uint8_t)(D >> (56 - 8 * i));
+          if (!vh_case(desc, 10)) continue;
+          size_t live0 = ta_live_count();
+          cbor_item_t* leaf = cbor_build_string("leaf");
+          cbor_item_t* cur = cbor_incref(leaf); /* one reference for the client, one handed to the innermost container */
+          bool ok = leaf != NULL;
+          for (size_t d = 0; d < D && ok; d++) {
+            int k = pattern == 4 ? (int)(d % 4) : pattern;
+            cbor_item_t* c = NULL;
+            if (k == 0) { c = cbor_new_tag(d); if (c) cbor_tag_set_item(c, cur); }
+            else if (k == 1) { c = cbor_new_indefinite_array(); ok = c && cbor_array_push(c, cur); }
+            else if (k == 2) { c = cbor_new_definite_map(1); cbor_item_t* key = cbor_build_uint8(1); ok = c && key && cbor_map_add(c, (struct cbor_pair){.key = key, .value = cur}); if (key) cbor_decref(&key); }
+            else { c = cbor_new_indefinite_map(); cbor_item_t* val = cbor_new_null(); ok = c && val && cbor_map_add(c, (struct cbor_pair){.key = cur, .value = val}); if (val) cbor_decref(&val); }
+            if (!c) { ok = false; break; }
+            cbor_decref(&cur); /* the container holds it now */
+            cur = c;
+          }
+          if (ok) {
+            if (cbor_refcount(leaf) != 2) vh_violation("refcount-differs-from-rules", "leaf shared between the client and a %zu-level chain has refcount %zu, expected 2", D, cbor_refcount(leaf));
+            cbor_decref(&cur);
+            if (cur) vh_violation("not-released-with-last-reference", "root of a %zu-level chain survived the release of its only reference", D);
+            if (cbor_refcount(leaf) != 1) vh_violation("refcount-differs-from-rules", "after releasing a %zu-level chain (limit %zu) the shared leaf has refcount %zu, expected 1: part of the chain was not released", D, L, cbor_refcount(leaf));
+            cbor_decref(&leaf);
+            if (ta_live_count() != live0) { vh_violation("leak", "%zu block(s) remain after releasing a %zu-level API-built chain (decoder limit %zu)", ta_live_count() - live0, D, L); ta_forget_all(); }
+            vh_nontrivial(vh_hash(desc, 10));
+            VH_MAX("max_api_built_depth_released", D);
+          } else { vh_die("deepapi: construction failed"); }
+        }
+    } else if (P == 4 && !strcmp(st, "builderseq")) {
+      /* the exported builder callbacks driven by the client itself over a CBOR sequence with ONE long-lived context, the way
+       * cbor_load uses them: each completed root belongs to the client, who copies the pointer out and releases it later */
+      uint64_t nseq = O.budget ? O.budget : (O.thorough ? 100000 : 10000);
+      uint64_t nsys = gen_systematic_count();
+      struct cbor_callbacks cbs = {
+          .uint8 = &cbor_builder_uint8_callback, .uint16 = &cbor_builder_uint16_callback, .uint32 = &cbor_builder_uint32_callback, .uint64 = &cbor_builder_uint64_callback,
+          .negint8 = &cbor_builder_negint8_callback, .negint16 = &cbor_builder_negint16_callback, .negint32 = &cbor_builder_negint32_callback, .negint64 = &cbor_builder_negint64_callback,
+          .byte_string = &cbor_builder_byte_string_callback, .byte_string_start = &cbor_builder_byte_string_start_callback, .string = &cbor_builder_string_callback,
+          .string_start = &cbor_builder_string_start_callback, .array_start = &cbor_builder_array_start_callback, .indef_array_start = &cbor_builder_indef_array_start_callback,
+          .map_start = &cbor_builder_map_start_callback, .indef_map_start = &cbor_builder_indef_map_start_callback, .tag = &cbor_builder_tag_callback, .null = &cbor_builder_null_callback,
+          .undefined = &cbor_builder_undefined_callback, .boolean = &cbor_builder_boolean_callback, .float2 = &cbor_builder_float2_callback, .float4 = &cbor_builder_float4_callback,
+          .float8 = &cbor_builder_float8_callback, .indef_break = &cbor_builder_indef_break_callback};
+      for (uint64_t u = 0; u < nseq; u++) {
+        if ((int)(u % (uint64_t)O.nshards) != O.shard) continue;
+        struct vh_rng r;
+        vh_rng_seed(&r, O.seed * 0xb5e9 + u);
+        size_t k = 2 + vh_below(&r, 5);
+        struct vh_buf cat = {0}, dumps[8];
+        size_t ends[8];
+        memset(dumps, 0, sizeof dumps);
+        struct gen_cfg cfg = {.max_nodes = 8, .max_depth = 4, .nonminimal = true, .assigned_simple_only = true};
+        for (size_t i = 0; i < k; i++) {
+          rnode* t = vh_below(&r, 3) ? gen_tree(&r, &cfg) : gen_systematic(vh_below(&r, nsys));
+          size_t before = cat.n;
+          ref_encode_src(t, &cat);
+          if (cat.n - before > 3000) { cat.n = before; vb_u8(&cat, 0xf6); rn_free(t); t = rn_new(R_SIMPLE); t->val = 22; }
+          walk_dump_ref(t, &dumps[i]);
+          ends[i] = cat.n;
+          rn_free(t);
+        }
+        uint8_t desc[12] = {'B'};
+        for (int i = 0; i < 8; i++) desc[1 + i] = (uint8_t)(u >> (56 - 8 * i));
+        if (!vh_case(desc, 9)) { vb_free(&cat); for (size_t i = 0; i < k; i++) vb_free(&dumps[i]); continue; }
+        size_t live0 = ta_live_count();
+        uint8_t* buf = vh_exact(cat.p, cat.n);
+        struct _cbor_stack stack = _cbor_stack_init();
+        struct _cbor_decoder_context ctx = {.stack = &stack, .creation_failed = false, .syntax_error = false, .root = NULL};
+        cbor_item_t* roots[8] = {0};
+        size_t got = 0, off = 0;
+        bool failed = false;
+        while (off < cat.n && got < k) {
+          struct cbor_decoder_result res = cbor_stream_decode(buf + off, cat.n - off, &cbs, &ctx);
+          if (res.status != CBOR_DECODER_FINISHED || ctx.creation_failed || ctx.syntax_error) { vh_violation("builder-sequence-failed", "driving the builder callbacks over a sequence of %zu well-formed items failed at offset %zu (status %d, creation_failed %d, syntax_error %d)", k, off, (int)res.status, ctx.creation_failed, ctx.syntax_error); failed = true; break; }
+          off += res.read;
+          if (stack.size == 0) {
+            roots[got] = ctx.root; /* the pointer is copied out; the context is reused as it is, like cbor_load's `return context.root` */
+            if (off != ends[got]) vh_violation("builder-sequence-boundary", "item %zu completed at offset %zu, expected %zu", got, off, ends[got]);
+            got++;
+          }
+        }
+        if (!failed) {
+          if (got != k) vh_violation("builder-sequence-count", "%zu of %zu items completed", got, k);
+          /* the client now uses and releases what it owns: every root must still be alive, intact and solely owned */
+          for (size_t i = 0; i < got; i++) {
+            struct vh_buf d = {0};
+            walk_dump_item(roots[i], &d, 0);
+            if (d.n != dumps[i].n || memcmp(d.p, dumps[i].p, d.n)) vh_violation("builder-sequence-item-differs", "item %zu of the sequence differs from what its bytes denote after later items were decoded with the same context", i);
+            if (cbor_refcount(roots[i]) != 1) vh_violation("refcount-differs-from-rules", "root %zu handed to the client has refcount %zu", i, cbor_refcount(roots[i]));
+            vb_free(&d);
+          }
+          for (size_t i = 0; i < got; i++) cbor_decref(&roots[i]);
+        } else {
+          while (stack.size > 0) { cbor_decref(&stack.top->item); _cbor_stack_pop(&stack); }
+          for (size_t i = 0; i < got; i++) if (roots[i]) cbor_decref(&roots[i]);
+        }
+        if (ta_live_count() != live0) { vh_violation("leak", "%zu block(s) left after a client-driven builder sequence", ta_live_count() - live0); ta_forget_all(); }
+        free(buf);
+        vb_free(&cat);
+        for (size_t i = 0; i < k; i++) vb_free(&dumps[i]);
+        vh_nontrivial(vh_hash(desc, 9));
+        VH_COUNT("builder_sequences", 1);
+      }
     } else if (P == 4 && !strcmp(st, "wide")) {
       /* reference counts beyond 32 bits: the count of an item is put near 2^32 (and 2^48, 2^63) through the public struct,
        * as if that many references were held, then references are taken and released across the boundary */
